@@ -167,6 +167,29 @@ func Report(t interface {
 	t.Fatalf("VIOLATION %s: %s", sig, v.Detail)
 }
 
+// Pending leaves a witness behind before a plan is executed: if the process
+// dies while executing it (an unrecovered panic in a goroutine the code under
+// test started, a stack overflow, a fatal runtime error), the runner finds this
+// file, replays the plan in a fresh process and - only if that process dies
+// again, in code of the package under test - reports <prop>/process-survives.
+// Removed again when the worker ends normally.
+func Pending(world string, plan any) {
+	fp := os.Getenv("VERIF_FAIL")
+	if fp == "" || os.Getenv("VERIF_REPLAY") != "" {
+		return
+	}
+	pb, err := json.Marshal(plan)
+	if err != nil {
+		return
+	}
+	prop := Prop()
+	v := Violation{Property: prop, Clause: "process-survives", Op: "world-" + world, Witness: "process-crash", Detail: "the process died while executing this plan (unrecovered panic or fatal error in the package under test)"}
+	ff := FailFile{Property: prop, World: world, Signature: v.Signature(), Violation: v, Plan: pb, Crash: true}
+	ff.Seed, ff.WorkerSeed, ff.Checks, ff.RunIndex = HistoryInfo()
+	b, _ := json.Marshal(ff)
+	_ = os.WriteFile(fp+".pending", b, 0o644)
+}
+
 // HistoryInfo: how this worker process got to the current run (for witnesses a
 // world writes itself, e.g. before an event that may kill the process).
 func HistoryInfo() (seed, worker uint64, checks string, runIndex uint64) {
@@ -181,6 +204,9 @@ func Main(m *testing.M, world string) {
 	stats.World = world
 	stats.Property = Prop()
 	code := m.Run()
+	if fp := os.Getenv("VERIF_FAIL"); fp != "" {
+		_ = os.Remove(fp + ".pending")
+	}
 	mu.Lock()
 	stats.WallS = time.Since(start).Seconds()
 	stats.Distinct = uint64(len(distinct))
